@@ -4,7 +4,12 @@ from __future__ import annotations
 from . import geom
 from .model import RefGraph, ROLES
 
-MAX_ATOMS = 7
+MAX_ATOMS = 10
+MAX_NODES = 150_000     # search-tree budget; beyond it the oracle abstains
+
+
+class BudgetExceeded(Exception):
+    pass
 
 
 def _desc_sets(m: RefGraph, stereo: bool, changes: bool):
@@ -87,7 +92,12 @@ def isomorphisms(m1: RefGraph, m2: RefGraph, *, labels=None, stereo=False,
             need[key] -= 1
         return True
 
+    nodes = [0]
+
     def rec(i):
+        nodes[0] += 1
+        if nodes[0] > MAX_NODES:
+            raise BudgetExceeded()
         if limit is not None and len(out) >= limit:
             return
         if i == len(order):
@@ -132,11 +142,23 @@ def isomorphic(m1, m2, **kw):
 
 
 def full_equal(m1: RefGraph, m2: RefGraph):
-    """the relation `==` is supposed to decide for two graphs of one class"""
+    """the relation `==` is supposed to decide for two graphs of one class;
+    None when the search budget is exhausted (oracle abstains)"""
     if m1.kind != m2.kind:
         return False
-    return isomorphic(m1, m2, stereo=m1.is_stereo, changes=m1.has_changes,
-                      roles=m1.is_reaction)
+    try:
+        return isomorphic(m1, m2, stereo=m1.is_stereo, changes=m1.has_changes,
+                          roles=m1.is_reaction)
+    except BudgetExceeded:
+        return None
+
+
+def all_isomorphisms(m1, m2, **kw):
+    """list of mappings, or None when the search budget is exhausted"""
+    try:
+        return isomorphisms(m1, m2, **kw)
+    except BudgetExceeded:
+        return None
 
 
 def selftest():
